@@ -48,6 +48,7 @@ def trees(values: list[dict]) -> list[Any]:
     out.append(("plain", R("VMany", {}, "a", items=(R("VTyped", {"f": -0.0}), R("VTyped", {"oi": 0, "t": (), "u": "0"}), R("VRich", {"f": -0.0}, "b")))))
     # values inside an untyped (Any) property: lists and mappings keep their container types in every format
     out.append(("plain", R("VMany", {}, "b", items=(R("VTyped", {"a": [1, [2, 3], "x"]}), R("VTyped", {"a": {"k": [3], "n": {"m": [], "s": "t"}}}, "a")))))
+    out.append(("plain", R("VMany", {}, "multi_tuple", items=(R("VLeaf", {"v": 1}, "multi_tuple"), R("VTyped", {"a": {"width": 1, "height": 2, "depth": {"z": 0, "a": 1}}}, "multi")))))  # a multi-origin over a tuple; a mapping whose keys are not in sorted order
     out.append(("twins-reversed", R("VMany", items=(R("VLeaf", {"v": 1}), R("VReq", child=R("VLeaf", {"v": 1})), R("VLeaf", {"v": 1})))))
     return out
 
